@@ -99,7 +99,7 @@ static void run() {
 #ifdef VP_FAST
     fast = true;
 #endif
-    if (!fast && a.shard == a.nshards - 1) interrupt_stress(a.thorough() ? 6000 : 1200);
+    if (!fast && a.shard == a.nshards - 1 && !vp::vg().on) interrupt_stress(a.thorough() ? 6000 : 1200);
     if (!fast) {
         vp::stats().rule = "enum: all 2^24 (state, octet) pairs of the update step; known check value; random buffers <= 4 KiB split at every position; buffers of 2^8/2^15/2^16/2^17 (+-1,2) octets and words; word buffers of every length 0..64 from random states; every buffer again after an in-place change (identical arguments) and at an odd start address; every 4-octet buffer over {state low, state high, 00, ff, low^1} from every state; messages followed by their own checksum and zero padding; 1.2 s (thorough 6 s) of calls interrupted every 150 us by a timer handler that checksums its own buffer";
         vp::stats().exhaustive = true;
